@@ -111,6 +111,12 @@ var writerKinds = []string{"plain", "errorwriter", "fat", "seeker", "append-seek
 
 // drawSchedule draws a chunk schedule for data (spans may be nil).
 func drawSchedule(r *prng.Rand, n int, spans []refcodec.Span) *simnet.Schedule {
+	if n > 1<<19 {
+		// megabytes: pieces of kilobytes (millions of tiny reads cost seconds and show
+		// nothing the tiny reads of small records do not)
+		k := r.Intn(8)
+		return &simnet.Schedule{Name: "fixed", Repeat: []int{0, 512, 4096, 4097, 65536, 100000, 1 << 20, 3}[k] + 1000*(k/7), EOFWithData: r.Chance(1, 4)}
+	}
 	switch r.Intn(8) {
 	case 0:
 		return &simnet.Schedule{Name: "all"}
